@@ -114,8 +114,11 @@ class HelpersContent:
         close_container(out, tr, f)
         inh = ['accepts-valid', 'rejects-invalid']
 
+        handled = []
+
         def impl(name_re, fid, members_section, **kw):
             im = child(m, 'impl', name_re)
+            handled.append(id(im))
             open_container(out, im, f)
             out.spec(sec('R_spec.rs', members_section))
             fn = child(im, 'fn', 'check_restrictions')
@@ -188,6 +191,13 @@ class HelpersContent:
         impl(r'CheckRestrictions for String', 'restrictions::String::check_restrictions', 'string-spec-members',
              ensures=[('full-range', 'res is Ok <==> self.sat(restrictions)')],
              origin={'full-range': 'property'}, inserts=hint)
+        # any OTHER impl of the trait in this module (a new carrier, a blanket impl such as `for Arc<C>`) takes part in method
+        # resolution of the code under contract: it is emitted as it is.  It has no specification (dom / sat), so Verus rejects the
+        # file and the unit becomes undecided-by-proof; the replay harnesses then decide on the real code.
+        for c in m.children:
+            if c.kind == 'impl' and id(c) not in handled and id(c) != id(vim) and re.search(r'\bCheckRestrictions\s+for\b', c.name):
+                emit_verbatim(out, c, f)
+                out.uncontracted.append(f'{f}: impl {" ".join(c.name.split())} (line {c.line_span[0]}) has no specification')
         close_container(out, m, f)
         return types
 
